@@ -617,6 +617,26 @@ theorem table_bracketedTagRegex :
     Pyxv.Gen.regexSources.lookup "BRACKETED_TAG_REGEX" = some "\\${(last-saved#)?(.*?)}" ∧
     Pyxv.Gen.regexSources.lookup "survey.BRACKETED_TAG_REGEX" = some "\\${(last-saved#)?(.*?)}" := by decide
 
+/-- a literal of the source, read by the translator (`Pyxv.Gen.c06Literals`) -/
+def srcLit (k : String) : Str := ((Pyxv.Gen.c06Literals.lookup k).getD "?").toList
+
+/-- **the hand-written literals of the channel model are the literals of the current source**: the f-string of
+    `_var_repl_output_function`, `LAST_SAVED_INSTANCE_NAME` and the two templates of `_var_repl_function`, the length
+    threshold and the `instance(` literal of `instance_expression.py`, the `"-"` pass-through of `insert_output_values` -/
+theorem table_c06Literals :
+    outputMarkup "V".toList = srcLit "output_markup_prefix" ++ "V".toList ++ srcLit "output_markup_suffix" ∧
+    varRepl [("a".toList, "/x".toList)] true "a".toList =
+      some (" instance('".toList ++ srcLit "last_saved_instance_name" ++ "')/x ".toList) ∧
+    srcLit "last_saved_prefix_template_present" = "True".toList ∧
+    srcLit "var_repl_return_template_present" = "True".toList ∧
+    srcLit "replace_min_length" = "9".toList ∧
+    (match replaceWithOutputWith none [] (List.replicate 9 'a'), replaceWithOutputWith none [] (List.replicate 10 'a') with
+     | .ok _, .unsupported _ => true | _, _ => false) = true ∧
+    isInstanceCall ⟨"FUNC_CALL", srcLit "instance_call_literals", 0, 0⟩ = true ∧
+    (match insertOutputValuesWith none [] (srcLit "insert_output_values_passthrough") with
+     | .ok (x, false) => x == ['-'] | _ => false) = true := by
+  decide +kernel
+
 /-! ## 6. Non-vacuity -/
 
 instance decValOk (v : Str) : Decidable (ValOk v) := by unfold ValOk; infer_instance
